@@ -210,6 +210,16 @@ def run(ctx):  # noqa: C901
     t = ret_last(mo, inline=False)
     ctx.ob("R-PRED", mo, "mutually orthogonal == off-diagonal Gram entries ~ 0", fd and t is not None and t[0] == "call" and t[1] == "numpy.allclose" and ("c", 0) in t[2],
            "diagonal zeroed, rest compared with 0" if fd else "the norms on the diagonal are no longer excluded")
+    # the vectors are the COLUMNS of the stacked matrix on every path: column_stack(vec_list) iterates over the first axis, so for a 2-D array
+    # argument (what is_orthonormal passes) its rows are the vectors; using the array as it is takes its columns instead
+    mats = [n for n in walk_no_nested(mo.node) if isinstance(n, ast.Assign) and isinstance(n.targets[0], ast.Name) and n.targets[0].id == "mat"]
+    if mats:
+        badm = [n for n in mats if not (isinstance(n.value, ast.Call) and m.resolve_call(mo, n.value).key in ("numpy.column_stack",) and n.value.args
+                                        and unparse(n.value.args[0]) == "vec_list")]
+        ctx.ob("R-LAYOUT", mo, "the matrix of vectors is column_stack(vec_list) on every path", not badm,
+               f"{len(mats)} binding(s), all column_stack(vec_list)" if not badm else
+               f"`{unparse(badm[0])[:60]}` (line {badm[0].lineno}) uses the argument as it is: for a 2-D array the vectors are its rows (that is how column_stack, and is_orthonormal, "
+               "read it), so the Gram matrix of the columns is tested -- wrong for fewer vectors than the dimension, unequal norms, repeated vectors", badm[0] if badm else None)
     mub = F(m, "is_mutually_unbiased_basis")
     Nb = Normalizer(m, mub, inline=False)
     okm = False
@@ -274,6 +284,51 @@ def run(ctx):  # noqa: C901
     loops = [Nb(n.iter) for n in walk_no_nested(mub.node) if isinstance(n, ast.For)]
     okl = ("call", "builtins.range", (("+", (("c", 1), ("n", "i"))), ("n", "num_bases")), ()) in loops
     ctx.ob("R-ENUM", mub, "every pair of distinct bases compared", okl, "j in range(i + 1, num_bases)" if okl else "basis-pair loop changed")
+
+    # ---- trace_norm: Schatten-1 of the operand, from its own singular values -------------------------------------------------
+    try:
+        tnf = F(m, "trace_norm")
+    except Exception:  # noqa: BLE001
+        tnf = None
+    if tnf is not None:
+        rets_tn, _ = return_terms(m, tnf, inline=True)
+        verdict, why, where = None, "result not recognised", None
+        for rn, facts, t in rets_tn:
+            where = rn
+            ncs = calls_to(t, "numpy.linalg.norm")
+            if t[0] == "call" and t[1] == "numpy.linalg.norm":
+                cl = schatten_class(t)
+                verdict, why = (cl == "1"), (f"np.linalg.norm(rho, ord={show(kwarg(t, 'ord', ('c', None)))}) is Schatten-{cl}")
+            elif "numpy.linalg.svd" in repr(t) and "numpy.sum" in repr(t) and "numpy.linalg.eig" not in repr(t):
+                verdict, why = True, "sum of the singular values from the SVD"
+            elif "numpy.sqrt" in repr(t) and ("numpy.linalg.eigvalsh" in repr(t) or "numpy.linalg.eigh" in repr(t) or "numpy.linalg.eigvals" in repr(t)) and "'dag'" in repr(t):
+                verdict, why = False, ("the singular values are taken as square roots of the eigenvalues of rho^+ rho: squaring halves the available precision -- a zero "
+                                       "singular value comes back as about 1e-8 * ||rho||, so trace_norm of a rank-one operator is 1 + 1e-8..1e-7 and every comparison with a tolerance of "
+                                       "that size downstream (realignment criterion: > 1 + 1e-8) flips for generic product states")
+        ctx.ob("R-NORM", tnf, "trace norm == sum of the singular values of the operand itself (nuclear norm / SVD)", verdict, why, where, required=verdict is not None)
+
+    # ---- has_same_dimension: vector vs matrix is decided by the container kind of the first entry, not by a list of scalar types ----
+    try:
+        hsd = F(m, "has_same_dimension")
+    except Exception:  # noqa: BLE001
+        hsd = None
+    if hsd is not None:
+        tests = [x for x in ast.walk(hsd.node) if isinstance(x, ast.Call) and isinstance(x.func, ast.Name) and x.func.id == "isinstance" and len(x.args) == 2
+                 and isinstance(x.args[0], ast.Subscript)]
+        bad = None
+        for x in tests:
+            ts = x.args[1].elts if isinstance(x.args[1], ast.Tuple) else [x.args[1]]
+            names = {unparse(t) for t in ts}
+            scalar_kinds = names & {"int", "float", "np.integer", "np.floating", "numbers.Real", "numbers.Integral"}
+            covers_complex = names & {"complex", "np.complexfloating", "numbers.Number", "numbers.Complex", "np.number", "np.generic"}
+            if scalar_kinds and not covers_complex:
+                bad = x
+        ctx.ob("R-KIND", hsd, "flat vector vs matrix is told apart by the container kind of the first entry (every scalar type included)", bad is None,
+               f"{len(tests)} isinstance test(s) on the first entry, on container kinds" if bad is None else
+               f"`{unparse(bad)[:70]}` lists real scalar types only: the first entry of a 1-D COMPLEX ket is none of them, so the ket is treated as a matrix and "
+               "len(item[0]) raises TypeError -- state_distinguishability / state_exclusion reject every flat complex ket", bad)
+        ctx.ob("R-ENUM", hsd, "every item is compared with the first", any(isinstance(n, (ast.For, ast.GeneratorExp, ast.ListComp)) and "items[1:]" in unparse(n) for n in ast.walk(hsd.node)),
+               "loop over items[1:]")
 
     # ---- unextendible product basis ------------------------------------------------------------------------------------------------
     _upb(ctx)
@@ -646,6 +701,15 @@ def _upb(ctx):
         ctx.ob("R-COV", f, "witness spans the null space of the conjugated factors (<v|w> = 0)", okc,
                "null_space(conj(M))" if okc else
                f"`{unparse(ns[0])}` solves M w = 0, i.e. sum_k v_k w_k = 0 without the conjugate: for complex product vectors the returned witness is not orthogonal to them", ns[0])
+    # (b') the factors handed on by is_product are the computed ones: rounding them to a fixed number of decimals (1e-12) is far above
+    # null_space's rank tolerance (about 1e-15), so exact linear dependences between non-parallel local factors are destroyed and the
+    # witness is missed
+    from ..rules import r_values_not_rounded
+    for nm_ in ("is_product.is_product", "is_product._is_product"):
+        try:
+            r_values_not_rounded(ctx, m.func(nm_), chain=["is_unextendible_product_basis", nm_.split(".")[-1]])
+        except KeyError:
+            pass
     # (c)
     perms = [lp for lp in ast.walk(f.node) if isinstance(lp, ast.For) and "permutations" in unparse(lp.iter)]
     parts = [n for n in ast.walk(f.node) if isinstance(n, ast.Call) and "set_partitions" in unparse(n.func)]
